@@ -1322,3 +1322,89 @@ class IfElse(Contract):
 
     def counts(self, c, cnd, t, f):
         return (0, 1, 1)
+
+
+# ---------------------------------------------------------------------------
+# reflected operators with a plain int on the left:  k <op> x
+# ---------------------------------------------------------------------------
+
+class _Reflected(Contract):
+    guard_relevant = False     # guard behaviour is that of the forward operation they delegate to
+    spec = None
+    fwd = None          # name of the contract of the forward operation (raises / counts are its own)
+
+    def configs(self, tier):
+        return [dict(mode=m, bits=3) for m in ("plain", "g0")]
+
+    def setup(self, c, cfg):
+        apply_mode(c, cfg["mode"], bitlength=cfg["bits"])
+        return getattr(c.LinComb, self.name.rsplit(".", 1)[1]), (c.operand("x"), c.public_int("k")), {}
+
+    def use_stub(self, c, *a):
+        return False
+
+    raises_unspecified = True      # the forward operation's contract carries the raise conditions
+
+    def post(self, c, r, x, k):
+        want = self.spec(c, term(k), c.v(x))
+        if isinstance(r, tuple):
+            return {"V.value": And(*[Eq(c.v(a), b) for a, b in zip(r, want)]), "V.inv": And(*[c.inv(a) for a in r])}
+        return {"V.value": Implies(isg(c), Eq(c.v(r), want)), "V.inv": c.inv(r)}
+
+
+def _exactdiv(c, a, b):
+    return idivmod(a, b)[0]
+
+
+@register
+class RTrueDiv(_Reflected):
+    """k / x: exact quotient k // x when x divides k"""
+    name = "pysnark.runtime:LinComb.__rtruediv__"
+    spec = staticmethod(lambda c, k, x: idivmod(k, x)[0])
+
+    def post(self, c, r, x, k):
+        q, m = idivmod(term(k), c.v(x))
+        return {"V.value": Implies(And(isg(c), m == 0), Eq(c.v(r), q)), "V.inv": c.inv(r)}
+
+
+@register
+class RFloorDiv(_Reflected):
+    name = "pysnark.runtime:LinComb.__rfloordiv__"
+    spec = staticmethod(lambda c, k, x: idivmod(k, x)[0])
+
+
+@register
+class RMod(_Reflected):
+    name = "pysnark.runtime:LinComb.__rmod__"
+    spec = staticmethod(lambda c, k, x: idivmod(k, x)[1])
+
+
+@register
+class RDivMod(_Reflected):
+    name = "pysnark.runtime:LinComb.__rdivmod__"
+    spec = staticmethod(lambda c, k, x: idivmod(k, x))
+
+
+@register
+class EnsureLc(Contract):
+    """LinComb._ensurelc(v): a LinComb is passed through; an int becomes the constant v (times the guard inside a guarded region)"""
+    name = "pysnark.runtime:LinComb._ensurelc"
+
+    def configs(self, tier):
+        return [dict(mode=m, kind=k) for m in ("plain", "g1", "g0") for k in ("s", "k")]
+
+    def setup(self, c, cfg):
+        apply_mode(c, cfg["mode"])
+        v = c.operand("x") if cfg["kind"] == "s" else c.public_int("k")
+        return c.LinComb._ensurelc, (v,), {}
+
+    def use_stub(self, c, *a):
+        return False
+
+    def post(self, c, r, *a):
+        v = a[-1]
+        if isinstance(v, c.LinComb):
+            return {"V.same_object": r is v}
+        one = c.rt.LinComb.ONE
+        return {"V.value": Eq(c.v(r), imul(term(v), c.v(one))), "V.inv": c.inv(r),
+                "V.value_unguarded_or_true_guard": Implies(isg(c), Eq(c.v(r), term(v)))}
